@@ -16,6 +16,7 @@ RULE = (
     "frozen tables: attribute name per field, stripped text, ISO-8601 creation time, ignored "
     "fields absent, plus the reference-document link; equality of the complete root attrs dict "
     "read through open_alos2. Non-trivial: >= 1 file pointer record."
+    " Stage 'in-place-pairs': two volume directories at the same root, one after the other, both judged."
 )
 ASSUMPTIONS = [
     "layout/volume_directory.json + layout/exposure_volume.json (frozen) are the reference",
